@@ -4,7 +4,7 @@ own test suite kills are dropped (the brief asks for changes that still pass the
 relevant quick checks.  Survivors (no check goes red) are written to <out>/survivors.jsonl for triage: each is either an
 equivalent mutant or a gap in the checks.
 
-usage: tools/mutate.py --out DIR [--per-file N] [--seed S] [--files a816/cpu/mapping.py,...]
+usage: tools/mutate.py --out DIR [--per-file N] [--seed S] [--files a816/cpu/mapping.py,...] [--recheck survivors.jsonl]
 """
 import ast, copy, json, os, random, shutil, subprocess, sys, tempfile, time
 
@@ -94,6 +94,57 @@ def apply(kind, node, idx):
         return f"aug {old} flipped"
 
 
+def evaluate(rel, src, pick):
+    """apply site number `pick` of file `rel` in a scratch copy, run the tests and the relevant checks -> record"""
+    tree = ast.parse(src)
+    kind, node, idx = sites(tree)[pick]
+    line = getattr(node, "lineno", 0)
+    try:
+        desc = apply(kind, node, idx)
+        ast.fix_missing_locations(tree)
+        new_src = ast.unparse(tree)
+    except Exception:
+        return None
+    tmp = tempfile.mkdtemp(prefix="a816mut_")
+    rec = {"file": rel, "line": line, "kind": kind, "pick": pick, "desc": desc, "source_line": src.splitlines()[line - 1].strip() if line else ""}
+    try:
+        dst = os.path.join(tmp, "repo")
+        shutil.copytree("/repo", dst, ignore=shutil.ignore_patterns(".git", "__pycache__", "*.pyc", ".pytest_cache"))
+        open(os.path.join(dst, rel), "w").write(new_src)
+        env = dict(os.environ, PYTHONDONTWRITEBYTECODE="1")
+        try:
+            r = subprocess.run([PY, "-m", "pytest", "-q", "-x", "-p", "no:cacheprovider", "--timeout=120"], cwd=dst, env=env, capture_output=True, text=True, timeout=600)
+            tests_ok = r.returncode == 0
+        except subprocess.TimeoutExpired:
+            tests_ok = False
+        rec["tests_pass"] = tests_ok
+        if not tests_ok:
+            rec["result"] = "killed-by-tests"
+            return rec
+        rec["result"] = "survived"
+        rec["inconclusive"] = []
+        for chk in FILES[rel]:
+            e2 = dict(os.environ, A816_REPO=dst, VERIF_OUT=tmp, VERIF_CASE_TIMEOUT="120")
+            try:
+                r = subprocess.run([os.path.join(os.path.dirname(os.path.dirname(os.path.abspath(__file__))), "run.py"), chk, "--tier", "quick", "--no-shrink"],
+                                   env=e2, capture_output=True, text=True, timeout=1500)
+                rc = r.returncode
+                tail = r.stdout.strip().splitlines()[-1:] if r.stdout.strip() else []
+            except subprocess.TimeoutExpired:
+                rc, tail = 3, ["timeout"]
+            if tail and "INCONCLUSIVE" in tail[0]:
+                rec["inconclusive"].append(chk)  # part of that check's cases hit the wall-clock backstop: not a clean pass
+            if rc != 0:
+                rec["result"] = f"caught-by-{chk}" if rc == 1 else f"harness-error-{chk}" if rc == 2 else f"timeout-{chk}"
+                rec["tail"] = tail
+                break
+        if rec["result"] == "survived" and rec["inconclusive"]:
+            rec["result"] = "survived-inconclusive"
+        return rec
+    finally:
+        shutil.rmtree(tmp, ignore_errors=True)
+
+
 def main():
     args = sys.argv[1:]
     out = args[args.index("--out") + 1]
@@ -101,61 +152,36 @@ def main():
     seed = int(args[args.index("--seed") + 1]) if "--seed" in args else 1
     files = args[args.index("--files") + 1].split(",") if "--files" in args else list(FILES)
     os.makedirs(out, exist_ok=True)
+    if "--recheck" in args:
+        # re-evaluate the mutants listed in a survivors file (same file / line / kind / description)
+        todo = [json.loads(l) for l in open(args[args.index("--recheck") + 1])]
+        with open(os.path.join(out, "recheck.jsonl"), "a") as log:
+            for t in todo:
+                src = open(os.path.join("/repo", t["file"])).read()
+                for pick, (kind, node, idx) in enumerate(sites(ast.parse(src))):
+                    if kind != t["kind"] or getattr(node, "lineno", 0) != t["line"]:
+                        continue
+                    rec = evaluate(t["file"], src, pick)
+                    if rec is None or rec["desc"] != t["desc"]:
+                        continue
+                    log.write(json.dumps(rec) + "\n"); log.flush()
+                    print(rec["result"], rec["file"], rec["line"], rec["desc"], "|", rec["source_line"][:80], flush=True)
+        return
     rng = random.Random(seed)
     log = open(os.path.join(out, "log.jsonl"), "a")
     surv = open(os.path.join(out, "survivors.jsonl"), "a")
     for rel in files:
         src = open(os.path.join("/repo", rel)).read()
-        tree0 = ast.parse(src)
-        n_sites = len(sites(tree0))
+        n_sites = len(sites(ast.parse(src)))
         picks = rng.sample(range(n_sites), min(per_file, n_sites))
         for pick in picks:
-            tree = ast.parse(src)
-            kind, node, idx = sites(tree)[pick]
-            line = getattr(node, "lineno", 0)
-            try:
-                desc = apply(kind, node, idx)
-                ast.fix_missing_locations(tree)
-                new_src = ast.unparse(tree)
-            except Exception as e:
+            rec = evaluate(rel, src, pick)
+            if rec is None:
                 continue
-            tmp = tempfile.mkdtemp(prefix="a816mut_")
-            rec = {"file": rel, "line": line, "kind": kind, "desc": desc, "source_line": src.splitlines()[line - 1].strip() if line else ""}
-            try:
-                dst = os.path.join(tmp, "repo")
-                shutil.copytree("/repo", dst, ignore=shutil.ignore_patterns(".git", "__pycache__", "*.pyc", ".pytest_cache"))
-                open(os.path.join(dst, rel), "w").write(new_src)
-                env = dict(os.environ, PYTHONDONTWRITEBYTECODE="1")
-                try:
-                    r = subprocess.run([PY, "-m", "pytest", "-q", "-x", "-p", "no:cacheprovider", "--timeout=120"], cwd=dst, env=env, capture_output=True, text=True, timeout=600)
-                    tests_ok = r.returncode == 0
-                except subprocess.TimeoutExpired:
-                    tests_ok = False
-                rec["tests_pass"] = tests_ok
-                if not tests_ok:
-                    rec["result"] = "killed-by-tests"
-                else:
-                    rec["result"] = "survived"
-                    for chk in FILES[rel]:
-                        e2 = dict(os.environ, A816_REPO=dst, VERIF_OUT=tmp, VERIF_CASE_TIMEOUT="60")
-                        t0 = time.time()
-                        try:
-                            r = subprocess.run([os.path.join(os.path.dirname(os.path.dirname(os.path.abspath(__file__))), "run.py"), chk, "--tier", "quick", "--no-shrink"],
-                                               env=e2, capture_output=True, text=True, timeout=1500)
-                            rc = r.returncode
-                            tail = r.stdout.strip().splitlines()[-1:] if r.stdout.strip() else []
-                        except subprocess.TimeoutExpired:
-                            rc, tail = 3, ["timeout"]
-                        if rc != 0:
-                            rec["result"] = f"caught-by-{chk}" if rc == 1 else f"harness-error-{chk}" if rc == 2 else f"timeout-{chk}"
-                            rec["tail"] = tail
-                            break
-                log.write(json.dumps(rec) + "\n"); log.flush()
-                if rec["result"] == "survived" or rec["result"].startswith(("harness", "timeout")):
-                    surv.write(json.dumps(rec) + "\n"); surv.flush()
-                print(rec["result"], rel, line, desc, "|", rec["source_line"][:80], flush=True)
-            finally:
-                shutil.rmtree(tmp, ignore_errors=True)
+            log.write(json.dumps(rec) + "\n"); log.flush()
+            if rec["result"].startswith(("survived", "harness", "timeout")):
+                surv.write(json.dumps(rec) + "\n"); surv.flush()
+            print(rec["result"], rel, rec["line"], rec["desc"], "|", rec["source_line"][:80], flush=True)
 
 
 main()
